@@ -70,8 +70,11 @@ func c18Run(c c18Case) Verdict {
 	done := make(chan struct{})
 	go func() {
 		defer func() {
-			// close first, then wake the waiter (defers run last-in first-out)
+			// the waiter evaluates "done" under the hub lock: change it under
+			// the lock too, or the wake-up can slip between its check and its wait
+			r.Hub.Lock()
 			close(done)
+			r.Hub.Unlock()
 			r.Hub.Broadcast()
 		}()
 		for ti, tx := range c.Txns {
